@@ -685,7 +685,9 @@ def apply(spec, injections, r):
 OPWORD_NAMES = ["SENSOR", "BRAND", "ANDROID", "NOTES", "MONITOR", "XORG", "ORDER", "BORDER", "KNOT", "NOTE", "ORACLE",
                 "HANDLE", "IMPLIESX", "XIMPLIES", "REQUIRESALL", "EXCLUDESX", "EQUIVALENCES", "Android", "Notes", "sensOR",
                 "ANDAND", "NOTNOT", "ORXOR", "ANDY", "FLOOR"]
-OPWORD_NAMES_NONASCII = ["ANDÉN", "SEÑOR", "ORÉGANO", "NOTÍCIA", "ÉAND", "ÑOR", "XORÉ", "ÀNOT"]
+OPWORD_NAMES_NONASCII = ["ANDÉN", "SEÑOR", "ORÉGANO", "NOTÍCIA", "ÉAND", "ÑOR", "XORÉ", "ÀNOT",
+                         # names that need quoting and contain a word the target language reserves
+                         "double room", "string key", "integer x", "boolean flag", "xor gate", "the double", "mux a"]
 
 
 def rename_to_opwords(spec, r, pool=OPWORD_NAMES, kmax=4, prefer_constrained=True):
